@@ -16,7 +16,8 @@
 From Coq Require Import List Ascii String Bool PrimFloat Permutation.
 From Verif Require Import Base.Result Base.Str Base.PyDict Model.Types Model.Domain Model.Exec Model.Plan Model.Joint
   Spec.Pddl Spec.Joint Spec.Subst Proofs.C20_Defs Proofs.C20_Subst Proofs.C03_Defs
-  Proofs.C04_Thread Proofs.C04_Link Proofs.C16_Commute Proofs.C16_Joint Proofs.C16_Main Proofs.C16_Lines Proofs.C16_Examples.
+  Proofs.C04_Thread Proofs.C04_Link Proofs.C16_Commute Proofs.C16_Joint Proofs.C16_Main Proofs.C16_Lines Proofs.C16_Examples
+  Proofs.C16_Seq.
 Import ListNotations.
 
 (* ---------- PDDL level: order does not matter for non-interfering members ---------- *)
@@ -158,6 +159,58 @@ Theorem C16_export_text : forall ts items,
      nth_error items (S (2 * k)) = Some (XOp (jt_ops t)) /\ nth_error items (S (S (2 * k))) = Some (XState (jt_next t))).
 Proof. exact export_joint_shape. Qed.
 
+(* ---------- sequences of calls: flags, refusal at the exporter, the initial-state flag ---------- *)
+(* the state a joint action returns is never flagged as the initial state - no member, one, several, allowed or not *)
+Theorem C16_result_not_init : forall d eps objs sch cur calls allow s,
+  apply_actions d eps objs sch cur calls allow = Ok s -> ms_init s = false.
+Proof. exact apply_actions_not_init. Qed.
+
+(* ... so exactly the first state of an exported joint trajectory is '(:init' (also when nobody acts in the first step) *)
+Theorem C16_export_init_once : forall d eps objs sch exporter_allow allow init lines ts,
+  parse_joint_plan d eps exporter_allow objs sch allow init lines = Ok ts ->
+  forall k t, nth_error ts k = Some t ->
+    ms_init (jt_next t) = false /\ (ms_init (jt_prev t) = true <-> k = 0).
+Proof. exact parse_joint_plan_init_once. Qed.
+
+(* the exporter's own switch and the switch of parse_plan act as ONE disjunction, decided per call: a plan parsed with
+   (exporter_allow, allow) is the plan parsed by an exporter built with their disjunction and no per-call switch *)
+Theorem C16_flags_disjunction : forall d eps objs sch exporter_allow allow init lines,
+  parse_joint_plan d eps exporter_allow objs sch allow init lines =
+  parse_joint_plan d eps (allow || exporter_allow) objs sch false init lines.
+Proof. exact flags_are_a_disjunction. Qed.
+
+(* refusal at the exporter: no switch set, the lines [l1] exported, the next line's joint action has a member [c] that
+   is inapplicable in the state they led to, at whatever position ([before]: the applicable members in front of it):
+   parse_plan raises ValueError - whatever lines follow *)
+Theorem C16_export_refuses : forall d eps objs sch init l1 line l2 ts1 calls txts before c after s1,
+  parse_joint_plan d eps false objs sch false init l1 = Ok ts1 ->
+  let cur := end_state _ _ jt_next {| ms_init := true; ms_st := init |} ts1 in
+  parse_joint_call line = Ok calls -> mapM (member_text d) calls = Ok txts ->
+  filter (fun c => negb (is_nop c)) calls = before ++ c :: after ->
+  Forall (fun c => call_applicable d eps (Some objs) c (ms_st cur) = Ok true) before ->
+  seq_members d eps (Some objs) (sch (List.length l1)) (ms_st cur) (number_from 0 before) = Ok s1 ->
+  call_applicable d eps (Some objs) c (ms_st cur) = Ok false ->
+  parse_joint_plan d eps false objs sch false init (l1 ++ line :: l2) = Err EValue.
+Proof. exact parse_joint_plan_refuses. Qed.
+
+(* its hypotheses hold for the plan ["[(nop ),(nop )]"; "[(move r1 l1 l2), (move r2 l3 l1)]"] on the robots below: refused
+   without a switch, exported with either; and a valid two-line plan is exported as two steps *)
+Theorem C16_export_refuses_example :
+  (exists ts, jq_plan false false jq_good = Ok ts /\ List.length ts = 2) /\
+  (exists ts1 s1,
+     jq_plan false false [jq_idle] = Ok ts1 /\
+     let cur := end_state _ _ jt_next {| ms_init := true; ms_st := jx_state |} ts1 in
+     ms_init cur = false /\
+     parse_joint_call jq_bad_line = Ok [mv "r1" "l1" "l2"; mv "r2" "l3" "l1"] /\
+     is_ok (mapM (member_text jx_dom) [mv "r1" "l1" "l2"; mv "r2" "l3" "l1"]) = true /\
+     Forall (fun c => call_applicable jx_dom jx_eps (Some jx_objs) c (ms_st cur) = Ok true) [mv "r1" "l1" "l2"] /\
+     seq_members jx_dom jx_eps (Some jx_objs) id_schedule (ms_st cur) (number_from 0 [mv "r1" "l1" "l2"]) = Ok s1 /\
+     call_applicable jx_dom jx_eps (Some jx_objs) (mv "r2" "l3" "l1") (ms_st cur) = Ok false) /\
+  jq_plan false false [jq_idle; jq_bad_line] = Err EValue /\
+  is_ok (jq_plan false true [jq_idle; jq_bad_line]) = true /\
+  is_ok (jq_plan true false [jq_idle; jq_bad_line]) = true.
+Proof. exact jq_example. Qed.
+
 (* ---------- the hypotheses are satisfiable; non-interference is needed ---------- *)
 (* [(move r1 l1 l2), (nop ), (move r2 l3 l4)]: non-interfering, all applicable; the joint action, the joint action of a
    permutation with the nop elsewhere, and the spec's sequential composition in both orders are the same state *)
@@ -219,6 +272,11 @@ Print Assumptions C16_line_example.
 Print Assumptions C16_export.
 Print Assumptions C16_export_aborts.
 Print Assumptions C16_export_text.
+Print Assumptions C16_result_not_init.
+Print Assumptions C16_export_init_once.
+Print Assumptions C16_flags_disjunction.
+Print Assumptions C16_export_refuses.
+Print Assumptions C16_export_refuses_example.
 Print Assumptions C16_example.
 Print Assumptions C16_example_refused.
 Print Assumptions C16_interference_matters.
